@@ -455,7 +455,7 @@ PROPS['C16'] = dict(
           'MPIMaster / MPIWorker classes is executed by several simulated ranks (cooperative threads of the engine, one address space) against '
           'an MPI model with non-overtaking channels, MPI matching order and nondeterministic delivery: every order in which the in-flight '
           'messages can be delivered is a fork decided by the solver-backed engine; the numbers of jobs and the job complexities are symbolic.',
-    bounds={Q: 'ranks 1..3, jobs 0..3 (2 ranks) / 0..2 (3 ranks), 2 consecutive rounds with 2 ranks and 0..2 jobs; granularity: a rank runs to '
+    bounds={Q: 'ranks 1..3, jobs 0..3 (2 ranks) / 0..2 (3 ranks), 2 consecutive rounds with 2 ranks and 0..2 jobs; dedicated-master mode with 1-2 workers and 0..3 jobs; granularity: a rank runs to '
                'quiescence, then one message is delivered', T: '3 ranks x 0..3 jobs, 3 rounds with 2 ranks'},
     assumptions=['MPI model: buffered sends (eager protocol, 4-byte payloads), non-overtaking per (source,destination), matching in posting order, '
                  'request::test() of an inactive request returns an empty optional (Boost.MPI 1.83 headers)',
@@ -471,6 +471,11 @@ PROPS['C16'] = dict(
                 witnesses=['done', 'all_ranks_finished', 'round_without_jobs', 'fewer_jobs_than_ranks']),
            dict(name='dispatch_p2_r2', harness='h_dispatch', defs=['NRANKS=2', 'MAXJOBS=2', 'ROUNDS=2'], models=[], mpiexec=2, split={'jobs0': R(3), 'jobs1': R(3)},
                 max_loop=200000, witnesses=['done', 'all_ranks_finished', 'round_without_jobs']),
+           # dedicated-master mode (rank 0 only dispatches; the loops of test/mpi_dispatcher_test_nomaster.cpp): more jobs than workers included
+           dict(name='dispatch_dedicated_p3', harness='h_dispatch', defs=['NRANKS=3', 'MAXJOBS=3', 'DEDICATED=1'], models=[], mpiexec=3, max_loop=200000,
+                split={'jobs0': R(4), 'c0_0': [1], 'c0_1': [1], 'c0_2': [1]}, witnesses=['done', 'all_ranks_finished', 'round_without_jobs']),
+           dict(name='dispatch_dedicated_p2', harness='h_dispatch', defs=['NRANKS=2', 'MAXJOBS=3', 'DEDICATED=1'], models=[], mpiexec=2, max_loop=200000,
+                split={'jobs0': R(4), 'c0_0': [1], 'c0_1': [1], 'c0_2': [1]}, witnesses=['done', 'all_ranks_finished', 'more_jobs_than_ranks']),
            dict(name='dispatch_p3_j3', harness='h_dispatch', defs=['NRANKS=3', 'MAXJOBS=3'], models=[], mpiexec=3, split={'jobs0': [3], 'c0_0': [1, 2], 'c0_1': [1, 2]},
                 max_loop=200000, tiers=[T], witnesses=['done', 'all_ranks_finished']),
            dict(name='dispatch_p2_r3', harness='h_dispatch', defs=['NRANKS=2', 'MAXJOBS=2', 'ROUNDS=3'], models=[], mpiexec=2, split={'jobs0': R(3), 'jobs1': R(3), 'jobs2': R(3)},
@@ -506,7 +511,13 @@ PROPS['C06'] = dict(
 PROPS['C13']['units'] += [dict(u, name='c06_' + u['name']) for u in PROPS['C06']['units'] if u['name'] in ('chi_split_p2_c3', 'chi_split_p3_c2')]
 PROPS['C13']['claim'] += ('  Bulk computation of the real TwoParticleGFContainer (units c06_chi_split_*): after computeAll(split) on 2-3 simulated ranks with 2-3 '
                           'stored components every listed component is evaluable on every rank and equals a serial reference computation.')
+PROPS['C13']['units'] += [dict(u, name='c02_' + u['name'], split={'quad': [5, 6, 10], 'clear': [0], 'beta': [2]}, validate=[], witnesses=['done', 'prepared_again'])
+                          for u in PROPS['C02']['units'] if u['name'] == '2pgftable']
+PROPS['C13']['claim'] += ('  Unit c02_2pgftable (real TwoParticleGF): asking a computed element to prepare() and compute() again - the lookup idiom after a bulk '
+                          'computation - adds no parts and leaves its values unchanged.')
 PROPS['C13']['outside'] = [o for o in PROPS['C13']['outside'] if 'MPI distribution' not in o] + ['MPI distribution of a bulk computation beyond 3 ranks / 3 components']
+PROPS['C16']['claim'] += ('  Dedicated-master mode (units dispatch_dedicated_*): rank 0 runs MPIMaster(comm, ntasks, false) and only dispatches, the other ranks run the '
+                          'MPIWorker loop of the library\'s own example; same obligations, more jobs than workers included.')
 # the eigen-data "reported" by C03 are those every rank holds after the distributed Hamiltonian steps
 PROPS['C03']['units'] += [dict(u, name='c06_' + u['name']) for u in PROPS['C06']['units'] if u['name'] in ('ham_p2',)]
 PROPS['C03']['claim'] += ('  Distributed diagonalisation (unit c06_ham_p2): after Hamiltonian::prepare/compute on 2 simulated ranks every rank holds the '
@@ -549,5 +560,8 @@ PROPS['C12'] = dict(
 # Wick's theorem at coinciding frequencies rests on the resonance tolerance reaching the parts (floating-point noise between degenerate levels)
 PROPS['C12']['units'] += [dict(u, name='c02_' + u['name'], split={'quad': [5, 6, 10], 'clear': [0], 'beta': [2]}, validate=[], witnesses=['done', 'tolerances_checked'])
                           for u in PROPS['C02']['units'] if u['name'] == '2pgftable']
+PROPS['C12']['units'] += [dict(u, name='c02_' + u['name'], validate=[]) for u in PROPS['C02']['units'] if u['name'] in ('termmerge_res', 'termmerge_nonres')]
+PROPS['C12']['claim'] += ('  Units c02_termmerge_*: the reduction of like two-particle terms (three additions, symbolic coefficients) keeps poles and sums coefficients - '
+                          'the cancellations behind Wick\'s theorem in models with spectator orbitals merge three and more like terms.')
 PROPS['C12']['claim'] += ('  Unit c02_2pgftable: the resonance / coefficient tolerances set on a two-particle component reach every part it creates (the vertex of a model '
                           'with degenerate levels is computed from eigenvalues that agree only up to rounding; the resonance tolerance is what absorbs that).')
